@@ -47,7 +47,7 @@ func run(r *core.Run) {
 	r.Assume("error messages are not compared, only the output index at which the stream fails")
 	r.Assume("L1 atom and operator sets shrink with program size (l1_tiers in coverage); each size is enumerated completely over its set; the grammar has no recursion and no unbounded generator")
 	r.Assume("a program on which the reference engine itself crashes (Go panic inside gojq) has no reference behaviour and gets no verdict (counted)")
-	r.Assume("differences are classified by test, never by pattern: a rewritten program (catch bodies fed a constant instead of the message text / fromjson|tovalue / second split argument bound first / native split inside a path expression) must agree completely between the engines for the difference to count as that class; message-only differences are not findings, the other classes are known findings")
+	r.Assume("differences are classified by test, never by pattern: a rewritten program (catch bodies fed a constant instead of the message text / fromjson|tovalue / second split argument bound first / native split inside a path expression / backslashes of split's separator doubled) must agree completely between the engines for the difference to count as that class; message-only differences are not findings, the other classes are known findings")
 	if os.Getenv("VERIF_STEP_LIMIT") == "" {
 		// a batch is ~1500 evaluations; on a loaded machine 30 s is not a livelock
 		os.Setenv("VERIF_STEP_LIMIT", "180s")
@@ -532,7 +532,11 @@ func selfTest(r *core.Run) {
 	chk(ok && ps == `split(",") , path(try (_orig_split(",")) catch "split(") , ((_orig_split(.a; "g"))) |= (split(",")) , del(.a)`, "nativeSplitInPath: "+ps)
 	bq, ok := quoteBackslashInSplit1(`split(".") , split(","; "g") , "split(x)"`)
 	chk(ok && bq == `split((".") | if type == "string" then gsub("\\\\"; "\\\\") else . end) , split(","; "g") , "split(x)"`, "quoteBackslashInSplit1: "+bq)
-	for _, t := range []string{m, sp, ps, bq} {
+	ps2, ok := nativeSplitInPath(`"x\(path(debug(split(","))))y" , (def f(g): (path(g)); f((split(",")))) , (def f(g): g; f(split(",")))`)
+	chk(ok && ps2 == `"x\(path(debug(_orig_split(","))))y" , (def f(g): (path(g)); f((_orig_split(",")))) , (def f(g): g; f(split(",")))`, "nativeSplitInPath (2): "+ps2)
+	ps3, ok := nativeSplitInPath(`(def f: (debug((split(",")))); (path(f))) , (def f: split(","); f)`)
+	chk(ok && ps3 == `(def f: (debug((_orig_split(",")))); (path(f))) , (def f: split(","); f)`, "nativeSplitInPath (3): "+ps3)
+	for _, t := range []string{m, sp, ps, ps2, ps3, bq} {
 		_, err := gojq.Parse(t)
 		chk(err == nil, "rewritten program does not parse: "+t)
 	}
